@@ -447,6 +447,9 @@ def generate_bufr_message(decoder, s, info_only=False, continue_on_error=False, 
                     _, b_entries, d_entries = BufrTableDefinitionProcessor().process(bufr_message)
                     TableGroupCacheManager.invalidate()
                     TableGroupCacheManager.add_extra_entries(b_entries, d_entries)
+                    # Templates compiled so far have the earlier definitions baked in
+                    if getattr(decoder, 'compiled_template_manager', None):
+                        decoder.compiled_template_manager.cache.clear()
             idx_start += len(bufr_message.serialized_bytes)
 
             if matched:
